@@ -247,6 +247,22 @@ func main() {
 			_, has := g.funcsByKey[k]
 			fmt.Printf("%-50s props=%v assumed=%v inrepo=%v\n", k, c.Props, c.Assumed, has)
 		}
+	case "mod":
+		f := g.funcsByKey[*fn]
+		if f == nil {
+			fmt.Fprintln(os.Stderr, "no such function", *fn)
+			os.Exit(2)
+		}
+		fmt.Println(strings.Join(sortedKeys(g.modOf(f)), "\n"))
+		for _, b := range f.Blocks {
+			for _, in := range b.Instrs {
+				hs := map[string]bool{}
+				g.instrWrites(f, in, map[*ssa.Alloc]bool{}, hs, nil)
+				if hs["*"] || *verbose && len(hs) > 0 {
+					fmt.Printf("  %s: %s -> %v\n", g.fset.Position(in.Pos()), in.String(), sortedKeys(hs))
+				}
+			}
+		}
 	case "dump":
 		f := g.funcsByKey[*fn]
 		if f == nil {
@@ -262,6 +278,14 @@ func main() {
 		for _, o := range fv.obls {
 			fmt.Printf("; OBL %s expect=%s prefix=%d reach=%s\n;   goal=%s\n", o.Name, o.Expect, o.Prefix, o.Reach, o.Goal)
 		}
+		for _, b := range f.Blocks {
+			for _, in := range b.Instrs {
+				if c, ok := in.(ssa.CallInstruction); ok {
+					fmt.Printf("; CALL %s keys=%v\n", fv.posStr(in.Pos()), calleeKeys(c.Common()))
+				}
+			}
+		}
+		fmt.Println("; uncontracted:", sortedKeys(fv.uncontracted), "ext:", sortedKeys(fv.extCalls))
 		fmt.Println("; notes:", fv.notes)
 		fmt.Println("; unsupported:", fv.unsupported)
 	case "check":
@@ -303,6 +327,7 @@ type CheckResult struct {
 	BySolver     map[string]int `json:"by_solver"`
 	OutDir       string        `json:"out_dir"`
 	Bounded      []interface{} `json:"bounded,omitempty"`
+	UnreachableReturns []string `json:"unreachable_returns,omitempty"`
 	obls         []*Obligation
 }
 
@@ -369,6 +394,8 @@ func (g *Gen) check(prop, tier, outDir string, timeoutMS, seed, par int, verbose
 	os.RemoveAll(outDir)
 	g.solveAll(obls, outDir, timeoutMS, seed, par)
 	res.obls = obls
+	canaryTotal := map[string]int{}
+	canaryDead := map[string][]*OblReport{}
 	frByName := map[string]*FuncReport{}
 	for _, fr := range res.Functions {
 		frByName[fr.Func] = fr
@@ -378,6 +405,20 @@ func (g *Gen) check(prop, tier, outDir string, timeoutMS, seed, par int, verbose
 		res.All = append(res.All, rep)
 		res.SolverMS += o.MS
 		fr := frByName[o.Func]
+		if o.Verdict == "error" {
+			res.ToolErrors = append(res.ToolErrors, fmt.Sprintf("solver error on %s: %s (%s)", o.Name, o.Output, o.File))
+			continue
+		}
+		if o.Expect == "sat" && o.Kind == "canary" {
+			res.VacuityTotal++
+			canaryTotal[o.Func]++
+			if o.Verdict == "unsat" {
+				canaryDead[o.Func] = append(canaryDead[o.Func], rep)
+			} else {
+				res.VacuityOK++
+			}
+			continue
+		}
 		if o.Expect == "sat" {
 			res.VacuityTotal++
 			if o.Verdict == "unsat" {
@@ -418,6 +459,20 @@ func (g *Gen) check(prop, tier, outDir string, timeoutMS, seed, par int, verbose
 		}
 		if verbose {
 			fmt.Printf("  %-8s %-7s %6dms %s\n", o.Verdict, o.Solver, o.MS, o.Name)
+		}
+	}
+	// exit canaries: a function all of whose returns are unreachable under its contracts is vacuous;
+	// individual unreachable returns (dead code) are tolerated and listed
+	for fn, dead := range canaryDead {
+		if len(dead) == canaryTotal[fn] {
+			for _, d := range dead {
+				d.Verdict = "vacuous(unsat)"
+				res.Failed = append(res.Failed, d)
+			}
+		} else {
+			for _, d := range dead {
+				res.UnreachableReturns = append(res.UnreachableReturns, d.Name)
+			}
 		}
 	}
 	res.Assumed = sortedKeys(assumed)
